@@ -19,6 +19,7 @@ type PropConfig struct {
 	Level     string   `json:"level"`
 	Functions []string `json:"functions"`
 	Lemmas    []string `json:"lemmas"`
+	SMTLemmas []string `json:"smt_lemmas"` // hand-posed solver lemmas under contracts/lemmas (must be unsat)
 	Sweep     []string `json:"sweep"`
 	SweepRoots []string `json:"sweep_roots"`
 	Own       []string `json:"own"`
@@ -132,6 +133,9 @@ func runCheck(propID, repo, verif, tier string, verbose bool) int {
 	}
 	for _, k := range dedup(ownSet) {
 		units = append(units, p.verifyFunc(expandKey(p, k), "own"))
+	}
+	for _, l := range prop.SMTLemmas {
+		units = append(units, smtLemmaUnit(p, verif, l))
 	}
 	work := filepath.Join(verif, "work", propID)
 	os.RemoveAll(work)
